@@ -48,17 +48,17 @@ impl Property for C16 {
             },
             Phase::Random {
                 name: "constructed",
-                cases: tier.pick(60_000, 5_000_000),
+                cases: tier.pick(250_000, 5_000_000),
                 strat: Arc::new(|| raw::raw_package(false).prop_map(|r| C16Case::Pkg(PkgCase::Raw(r))).boxed()),
             },
             Phase::Random {
                 name: "pool-mutated",
-                cases: tier.pick(20_000, 2_000_000),
+                cases: tier.pick(80_000, 2_000_000),
                 strat: Arc::new(|| mutated_pool(40_000, 2).prop_map(C16Case::Pkg).boxed()),
             },
             Phase::Random {
                 name: "built",
-                cases: tier.pick(1_500, 50_000),
+                cases: tier.pick(5_000, 50_000),
                 strat: Arc::new(|| {
                     use crate::gen::builder::*;
                     (config_any_reuse(CfgParams { max_files: 4, sizes: size_small(), comp: comp_fast(), sign_prob: 0.3, file_kinds: true, force_large_prob: 0.1, rich_meta: true }), any::<bool>())
@@ -73,7 +73,7 @@ impl Property for C16 {
             },
             Phase::Random {
                 name: "sign-clear-histories",
-                cases: tier.pick(1_500, 100_000),
+                cases: tier.pick(5_000, 100_000),
                 strat: Arc::new(|| (proptest::sample::select(small_pool_indices(30_000)), proptest::collection::vec(prop_oneof![8 => op_cheap(), 1 => Just(Op::ClearSigInPlace), 1 => Just(Op::EmptySig)], 1..5)).prop_map(|(base, ops)| C16Case::History { base, ops }).boxed()),
             },
         ]
@@ -85,7 +85,7 @@ impl Property for C16 {
             C16Case::Pkg(pc) => {
                 let x = pc.bytes();
                 o.label(pc.kind());
-                let p = match panics::catch(|| rpm::Package::parse(&mut &x[..])) {
+                let p = match panics::catch(|| super::common::with_source(&x, fnv1a(&x) >> 9, |mut r| rpm::Package::parse(&mut r))) {
                     Ok(Ok(p)) => p,
                     Ok(Err(_)) => {
                         o.label("rejected");
